@@ -530,26 +530,36 @@ def handler(ctx, tag, coll, **kw):
     for v in sorted(want_keys) + unknown:
         owner = [gen_of.get((t, i)) for t, i, _ in coll if K(t, i) == v]
         g = owner[0] if owner else None
-        for ready in (0, 1):
-            for tv in (0, 1, 15):
+        for ready, tv, start in [(r_, t_, s_) for r_ in (0, 1) for t_ in (0, 1, 15) for s_ in (0, 1)]:
+            if True:
                 n += 1
-                asg = ev.asg({'self.value': v, 'self.tx.ready': ready, 'self.tx.valid': tv})
-                sit = 'value=%#06x tx.valid=%s tx.ready=%d' % (v, format(tv, '04b'), ready)
-                st, _ = active('self.stall', asg, True)
+                env = {'self.value': v, 'self.tx.ready': ready, 'self.tx.valid': tv, 'self.start': start}
+                asg = ev.asg(env)
+                sit = 'value=%#06x tx.valid=%s tx.ready=%d start=%d' % (v, format(tv, '04b'), ready, start)
+
+                def val(sig):
+                    """value of a combinational flag under this situation (last firing assignment wins; 0 if none)"""
+                    a_, _ = active(sig, asg, True)
+                    if a_ is None:
+                        return 0, None
+                    x = _ev(ir, a_.rhs, env) if isinstance(a_.rhs, E) else a_.rhs
+                    ctx.need(x is not None, '%s: %s is a function of the modelled inputs (%s)' % (C, q.fmt(a_), sit))
+                    return int(bool(x)), a_
+                stv, st = val('self.stall')
                 for gj in allg:
-                    a, _ = active(gj + '.start', asg, True)
+                    x, a = val(gj + '.start')
                     if gj == g:
-                        if _canon(a) != 'self.start':
-                            bad('start', 'the generator of the requested descriptor must receive start (%s): %s.start <= %s' % (
-                                sit, gj, _canon(a)), a.loc if a else None)
-                    elif raised(a):
+                        if x != start:
+                            bad('start', 'the generator of the requested descriptor must receive start (%s): %s.start is %d: %s' % (
+                                sit, gj, x, q.fmt(a) if a else 'no assignment'), a.loc if a else None)
+                    elif x:
                         bad('start', 'a generator of another descriptor is started (%s): %s' % (sit, q.fmt(a)), a.loc)
                 if g is None:
-                    if _canon(st) != 'self.start':
-                        bad('stall-unknown', 'a request for an unknown descriptor must be stalled when started (%s): stall <= %s' % (
-                            sit, _canon(st)), st.loc if st else None)
+                    if stv != start:
+                        bad('stall-unknown', 'a request for an unknown descriptor must be stalled when started (%s): stall is %d: %s' % (
+                            sit, stv, q.fmt(st) if st else 'no assignment'), st.loc if st else None)
                     continue
-                if raised(st):
+                if stv:
                     bad('stall-known', 'a known descriptor must not be stalled (%s): %s' % (sit, q.fmt(st)), st.loc)
                 a, _ = active(g + '.max_length', asg, True)
                 if _canon(a) != 'self.length':
@@ -586,8 +596,8 @@ def handler(ctx, tag, coll, **kw):
                     bad('tx_length', 'tx_length must %s (%s): %s' % (
                         'be loaded from %s together with the stream, registered' % want if en else 'hold', sit,
                         q.fmt(site) if site else 'no assignment'), site.loc if site else None)
-                a, _ = active(g + '.stream.ready', asg, True)
-                if raised(a) != en or (en and not q.is_one(a.rhs)):
+                x, a = val(g + '.stream.ready')
+                if bool(x) != en:
                     bad('generator-ready', 'the generator must be popped exactly when the tx buffer takes its word, i.e. when '
                         'the buffer is empty or being read (%s): ready <= %s' % (sit, _canon(a)), a.loc if a else None)
     ctx.need(n >= 12, 'evaluated situations')
